@@ -212,14 +212,18 @@ def report(ctx, res, write_ev=True):
 
 
 def acquire_run_slot(tier='quick'):
-    """Machine-wide FIFO semaphore: at most VERIF_SLOTS (default 3) vcheck runs at a time, plus one slot
+    """Machine-wide FIFO semaphore: at most VERIF_SLOTS (default 0 = disabled) vcheck runs at a time, plus one slot
     that only quick-tier runs may take, so that tier deadlines and the E3 watchdogs measure the check and
     not a dozen neighbours (several checks are routinely run side by side while the machinery is being
     developed; each uses all 16 cores).  Waiters queue by arrival time (ticket files), dead waiters'
     tickets are discarded.  A single run never waits.  The returned file object keeps the lock until
     the process exits."""
     import fcntl
-    n = int(os.environ.get('VERIF_SLOTS', '3'))
+    # Disabled by default (VERIF_SLOTS=0): the queue was a development aid.  It must never be able to
+    # block a run: a sandbox copy once carried stale tickets whose pids were alive again in the copy, and
+    # the first check waited for them until it was stopped.  When enabled, a ticket counts as alive only if
+    # the pid exists AND is a vcheck process, and nobody waits longer than 20 minutes.
+    n = int(os.environ.get('VERIF_SLOTS', '0'))
     if n <= 0:
         return None
     d = '/var/tmp/squid-verif-slots'
@@ -258,7 +262,15 @@ def acquire_run_slot(tier='quick'):
                 try:
                     pid = int(t.split('-')[1])
                     os.kill(pid, 0)
+                    with open('/proc/%d/cmdline' % pid, 'rb') as cf:
+                        if b'vverif.core' not in cf.read():
+                            raise ProcessLookupError()
                     live.append(t)
+                except FileNotFoundError:
+                    try:
+                        os.unlink(os.path.join(q, t))
+                    except OSError:
+                        pass
                 except (ValueError, IndexError):
                     pass
                 except ProcessLookupError:
@@ -280,6 +292,9 @@ def acquire_run_slot(tier='quick'):
                 if waited >= 2:
                     print('# vcheck: waited %d s for a run slot' % waited, file=sys.stderr)
                 return f
+            if time.time() - t0 > 1200:
+                print('# vcheck: gave up waiting for a run slot after 20 min, running anyway', file=sys.stderr)
+                return None
             time.sleep(0.5)
     finally:
         try:
